@@ -608,6 +608,12 @@ fn sources(tier: Tier) -> Vec<(Vec<u8>, usize)> {
     all.push(vec![0x00, 0x00, 0x00, 0x00, 0x7F]);
     all.push(vec![0x55, 0x55, 0x55, 0x55, 0x50]); // UMV with 12+ continuation pairs
     all.push(vec![0x2A, 0xAA, 0xAA, 0xAA, 0x00, 0x01]);
+    // long sources: enough bytes for the retained buffer to grow, be committed part-way and refill
+    // past its physical end (a ring buffer wraps only after at least eight bytes)
+    all.push(vec![0xA5, 0x3C, 0x96, 0x0F, 0xF0, 0x69, 0xC3, 0x5A, 0x81, 0x7E, 0x24, 0xDB]);
+    all.push(vec![0xFF, 0x00, 0x00, 0x80, 0x12, 0x34, 0x56, 0x78, 0x9A, 0x00, 0x00, 0x80, 0x01]);
+    all.push(vec![0x00, 0x00, 0x00, 0x00, 0x00, 0x00, 0x00, 0x00, 0x00, 0x00, 0x40, 0x00]);
+    all.push(vec![0x80, 0x40, 0x20, 0x10, 0x08, 0x04, 0x02, 0x01, 0xFE, 0xFD, 0xFB, 0xF7, 0xEF, 0xDF, 0xBF, 0x7F]);
     let mut out: Vec<(Vec<u8>, usize)> = vec![];
     for s in all {
         let n = s.len();
